@@ -418,8 +418,8 @@ func init() {
 		ID: "C17", UsesEvalModel: true,
 		Harnesses: []HarnessSpec{
 			{Name: "C17_main", WithCmd: true, Expect: []string{"end", "stdout-equals-tallies"}, Witnesses: 6,
-				Quick:    append(grid([]string{"warriors", "use88", "preset", "fixed", "maxRounds"}, []int{1, 2}, []int{0, 1}, []int{0}, []int{0, 9}, []int{2}), append(grid([]string{"warriors", "use88", "preset", "fixed", "maxRounds"}, []int{2}, []int{0, 1}, []int{0}, []int{4, 11}, []int{2}), Params{"warriors": 2, "use88": 0, "preset": 1, "fixed": 30, "maxRounds": 1})...),
-				Thorough: append(grid([]string{"warriors", "use88", "preset", "fixed", "maxRounds"}, []int{1, 2}, []int{0, 1}, []int{0}, []int{0, 4, 5, 8, 9, 11, 12}, []int{3}), grid([]string{"warriors", "use88", "preset", "fixed", "maxRounds"}, []int{1, 2}, []int{0}, []int{1}, []int{30, 70}, []int{2})...)},
+				Quick:    append(grid([]string{"warriors", "use88", "preset", "fixed", "maxRounds"}, []int{1, 2}, []int{0, 1}, []int{0}, []int{0, 9}, []int{2}), append(grid([]string{"warriors", "use88", "preset", "fixed", "maxRounds"}, []int{2}, []int{0, 1}, []int{0}, []int{4, 11}, []int{2}), Params{"warriors": 2, "use88": 0, "preset": 1, "fixed": 30, "maxRounds": 1}, Params{"warriors": 2, "use88": 1, "preset": 1, "fixed": 30, "maxRounds": 1})...),
+				Thorough: append(grid([]string{"warriors", "use88", "preset", "fixed", "maxRounds"}, []int{1, 2}, []int{0, 1}, []int{0}, []int{0, 4, 5, 8, 9, 11, 12}, []int{3}), grid([]string{"warriors", "use88", "preset", "fixed", "maxRounds"}, []int{1, 2}, []int{0, 1}, []int{1}, []int{30, 70}, []int{2})...)},
 		},
 	})
 }
